@@ -25,7 +25,7 @@ LIBSRC := $(filter-out $(REPO)/src/storage/realtest.cc, \
                        $(REPO)/src/storage/*.cc))
 LIBOBJ := $(patsubst $(REPO)/src/%.cc,$(B)/lib/%.o,$(LIBSRC))
 
-HARNESS := mdrive
+HARNESS := mdrive memdrive codecdrive
 HBIN    := $(addprefix $(B)/,$(HARNESS))
 
 all: $(HBIN)
